@@ -163,12 +163,7 @@ func cmdCheck(args []string) int {
 	var units []*Unit
 	var unitErrs []string
 	for _, name := range p.Units {
-		fn := e.findFunction(name)
-		if fn == nil {
-			unitErrs = append(unitErrs, fmt.Sprintf("function %s named by property %s does not exist any more", name, id))
-			continue
-		}
-		un, err := e.VerifyFunction(fn)
+		un, err := e.verifyUnit(name)
 		if err != nil {
 			unitErrs = append(unitErrs, err.Error())
 			continue
